@@ -108,7 +108,7 @@ def spelled_literals(v, rng, pools, distinct):
 def run(tier, seed, replay=None):
     v = common.Verdict("C09", tier, seed)
     rng = common.rng_for(seed, "C09", tier)
-    n = 400 if tier == "quick" else 8000
+    n = 1200 if tier == "quick" else 8000
     docs = make_docs(rng, n)
     if replay:
         rp = json.load(open(replay))
